@@ -227,7 +227,8 @@ def emit_parser(name, g, row_order=None):
     L.append("    startUnit := %d, endUnit := %d, startQty := %d, endQty := %d," % (
         g["start_states"].get("unit", 0), g["end_states"].get("unit", 0),
         g["start_states"].get("quantity", 0), g["end_states"].get("quantity", 0)))
-    L.append("    lexOrder := %s.lexOrder, ignore := %s.ignore }" % (name, name))
+    L.append("    lexOrder := %s.lexOrder, ignore := %s.ignore," % (name, name))
+    L.append("    patterns := %s.terminals.map (fun t => (t.1, t.2.1 == \"PatternRE\", t.2.2.1)) }" % name)
     L.append("")
     return L
 
